@@ -15,6 +15,7 @@ import (
 	"math/rand"
 	"os"
 	"path/filepath"
+	"runtime/pprof"
 	"sort"
 	"strings"
 	"sync"
@@ -283,6 +284,8 @@ type world struct {
 	f        *filer.Filer
 	fs       *weed_server.FilerServer
 	evals    int64
+	// observations accumulated over all calls of the current request
+	reqRestarts, reqPrefixed int64
 }
 
 func family(kind string) string {
@@ -338,7 +341,14 @@ type pageResult struct {
 }
 
 // call performs one listing call of the real code.
-func (w *world) call(d *dirSpec, q request, start string, inclusive bool) (p pageResult) {
+func (w *world) call(d *dirSpec, q request, start string, inclusive bool, budget int64) (p pageResult, exceeded bool) {
+	w.counting.Begin(budget)
+	defer func() {
+		_, prefixed, ex := w.counting.Calls()
+		exceeded = ex
+		w.reqPrefixed += prefixed
+		w.reqRestarts += w.counting.Restarts()
+	}()
 	collect := func(e *filer.Entry) bool {
 		p.names = append(p.names, e.Name())
 		p.paths = append(p.paths, string(e.FullPath))
@@ -363,13 +373,12 @@ func (w *world) call(d *dirSpec, q request, start string, inclusive bool) (p pag
 }
 
 func (w *world) sig(d *dirSpec, q request, op, class string) lib.Sig {
-	_, prefixed, _ := w.counting.Calls()
 	pf := "unused"
-	if w.kind == lib.MemNoPrefixKind && prefixed > 0 {
+	if w.kind == lib.MemNoPrefixKind && w.reqPrefixed > 0 {
 		pf = "used" // the wrapper's generic prefixFilterEntries path ran in this request
 	}
 	restart := "no"
-	if w.counting.Restarts() > 0 {
+	if w.reqRestarts > 0 {
 		restart = "yes" // a continuation call to the store started from the empty name again
 	}
 	exp, exc := "none", "none"
@@ -404,17 +413,17 @@ func (w *world) runRequest(d *dirSpec, q request) bool {
 	r := w.r
 	n := int64(len(d.Names))
 	perCall := 4*(n+2) + 8
-	if len(d.Expired) > 0 {
-		w.reinsertExpired(d)
+	if len(d.Expired) > 0 && w.counting.TakeDeletes() > 0 {
+		w.reinsertExpired(d) // an earlier listing deleted expired entries: put them back
+		w.r.Count("expired_entries_put_back", int64(len(d.Expired)))
 	}
 	match := d.matching(q)
 	all := after(match, q.Start, q.Inclusive)
 
+	w.reqRestarts, w.reqPrefixed = 0, 0
 	if q.Api == "grpc" {
-		w.counting.Begin((n + 3) * perCall)
-		p := w.call(d, q, q.Start, q.Inclusive)
+		p, exceeded := w.call(d, q, q.Start, q.Inclusive, (n+3)*perCall)
 		w.evals++
-		_, _, exceeded := w.counting.Calls()
 		if p.err != nil || exceeded {
 			w.report(d, q, "list", errClass(p.err, exceeded), fmt.Sprint("ListEntries: ", p.err), nil)
 			return false
@@ -428,10 +437,8 @@ func (w *world) runRequest(d *dirSpec, q request) bool {
 	}
 
 	// first page
-	w.counting.Begin(perCall)
-	p := w.call(d, q, q.Start, q.Inclusive)
+	p, exceeded := w.call(d, q, q.Start, q.Inclusive, perCall)
 	w.evals++
-	_, _, exceeded := w.counting.Calls()
 	if p.err != nil || exceeded {
 		w.report(d, q, "list", errClass(p.err, exceeded), fmt.Sprint("listing: ", p.err), nil)
 		return false
@@ -465,10 +472,8 @@ func (w *world) runRequest(d *dirSpec, q request) bool {
 			return false
 		}
 		last := got[len(got)-1]
-		w.counting.Begin(perCall)
-		np := w.call(d, q, last, false)
+		np, exceeded := w.call(d, q, last, false, perCall)
 		pages++
-		_, _, exceeded := w.counting.Calls()
 		if np.err != nil || exceeded {
 			w.report(d, q, "paginate", errClass(np.err, exceeded), fmt.Sprint("page ", pages, ": ", np.err), map[string]interface{}{"got": got})
 			return false
@@ -507,17 +512,19 @@ func min64(a, b int64) int64 {
 
 func (w *world) runDir(d *dirSpec, reqIdx []int, grpcToo bool) {
 	r := w.r
+	// one case record per directory (a record per request costs more than the requests themselves);
+	// a crash is attributed to the directory and its request indices, requestAt(i) rebuilds each request
+	r.Case(map[string]interface{}{"store": w.kind, "dir": d, "request_indices": reqIdx})
 	w.populate(d)
+	w.counting.TakeDeletes()
 	for _, i := range reqIdx {
 		q := requestAt(i)
-		r.Case(map[string]interface{}{"store": w.kind, "dir": d, "request": q})
 		ok := w.runRequest(d, q)
 		w.account(d, q, i)
 		// the same request through the real gRPC ListEntries handler (it takes start, inclusive, limit, prefix only)
 		if ok && grpcToo && q.Api == "stream" && q.Pattern == "" && q.Exclude == "" {
 			g := q
 			g.Api = "grpc"
-			r.Case(map[string]interface{}{"store": w.kind, "dir": d, "request": g})
 			w.runRequest(d, g)
 			r.Count("grpc_requests", 1)
 		}
@@ -536,7 +543,7 @@ func (w *world) account(d *dirSpec, q request, i int) {
 	if nontrivial(d, q) {
 		r.Count("nontrivial_requests", 1)
 		key := fmt.Sprintf("%s|%d", d.Path, i)
-		if w.r.Quick() || (i+d.Index)%8 == 0 {
+		if w.r.Quick() || (i+d.Index)%4 == 0 {
 			r.Nontrivial(key)
 		}
 	}
@@ -546,7 +553,7 @@ func runStore(r *lib.Run, kind string) {
 	w := &world{r: r, kind: kind}
 	w.open()
 	variants := r.Pick(1, 2) // thorough: every subset twice with different expiry assignments
-	per := r.Pick(160, 1200) // requests sampled per directory (of spaceSize())
+	per := r.Pick(64, 400) // requests sampled per directory (of spaceSize()), a different sample per store
 	total := spaceSize()
 	for v := 0; v < variants; v++ {
 		for idx := 0; idx < 256; idx++ {
@@ -580,6 +587,10 @@ func runStore(r *lib.Run, kind string) {
 }
 
 func main() {
+	if p := os.Getenv("VERIF_CPUPROFILE"); p != "" {
+		f, _ := os.Create(p)
+		_ = pprof.StartCPUProfile(f)
+	}
 	r := lib.Start("C19", "exploration")
 	r.SetRule("directories = all 256 subsets of the names {?b,a,a.b,a?,ab,abc,b,bb} (thorough: twice), per directory a seeded assignment of expired entries (TTL 60 s, created 2001), live entries with a 10-year TTL and sub-directories; requests = seeded sample of the product start(15: empty, each name, names between/before/after) x inclusive(2) x limit{1,2,3,4,1024} x (prefix(10) | pattern(12: *, a*, *b, a*c, a?c, a?, ?b*, a?*, literals, [ab]*, a[bc])) x exclude{none,*b} x api{StreamListDirectoryEntries, ListDirectoryEntries}, plus the real gRPC ListEntries handler for prefix-only requests; stores leveldb, leveldb2, leveldb3 (odd subsets under /buckets/ = per-bucket db) and an in-memory store answering ErrUnsupportedListDirectoryPrefixed; first page and the pagination that follows the last returned name are compared with sort(filter(names)). distinct = (directory, request index); non-trivial = at least one match to return and at least one child that must not be returned")
 	r.Assume("prefix and namePattern are not combined in one request (filer_search.go documents them as mutually exclusive and no caller combines them)")
@@ -604,6 +615,7 @@ func main() {
 	}
 	if len(r.Args) == 2 && r.Args[0] == "store" {
 		runStore(r, r.Args[1])
+		pprof.StopCPUProfile()
 		r.Finish(0)
 	}
 	self := os.Getenv("VERIF_SELF")
@@ -625,5 +637,5 @@ func main() {
 			r.Inconclusive("store " + kind + ": no requests / paginations / expired-entry directories / gRPC requests executed")
 		}
 	}
-	r.Finish(r.Pick(10000, 40000))
+	r.Finish(r.Pick(5000, 20000))
 }
